@@ -116,3 +116,27 @@ Proof.
   assert (Enm : v_name d = nm) by (unfold find_def in Ed; apply find_some in Ed as [_ E]; now apply String.eqb_eq in E).
   destruct (Hd d Hdin) as [body [Hb Hm]]. exists body. rewrite <- Enm. split; [assumption|congruence].
 Qed.
+
+(* C03 from the text: the report built for a profile text conforms exactly when the verdict holds no violation-level entry *)
+Definition report_from_text (defaults : list (string * string)) (doc : ynode) (g : graph) (c : cfg) : presult report :=
+  pbind (parse_profile defaults doc) (fun p => POk (validate g p c)).
+
+Theorem conforms_from_text : forall defaults doc g c rp v,
+  report_from_text defaults doc g c = POk rp -> verdict defaults doc g = POk v ->
+  (rp_conforms rp = true <-> forall nm fo msg, ~ In (Violation, nm, fo, msg) v).
+Proof.
+  intros defaults doc g c rp v Hr Hv. unfold report_from_text in Hr. unfold verdict in Hv.
+  destruct (parse_profile defaults doc) as [p| |]; try discriminate. cbn [pbind] in Hr, Hv.
+  destruct (forallb (fun d => wf_form (v_form d)) (p_defs p)); try discriminate.
+  injection Hr as Hr. injection Hv as Hv. subst rp v.
+  unfold validate, build_report, engine_of. simpl rp_conforms. simpl e_violation.
+  set (F := fun l0 : level => map (fun r : Report.result => (l0, r_name r, r_focus r, r_msg r)) (level_results g p l0)).
+  split.
+  - intros Hn nm fo msg Hin. apply (in_levels F) in Hin as [l0 Hx]. unfold F in Hx. apply in_map_iff in Hx as [r [Er Hin]].
+    injection Er as El _ _ _. subst l0. clear F. destruct (level_results g p Violation); [destruct Hin|discriminate].
+  - intros H. destruct (is_nil (level_results g p Violation)) eqn:N; [reflexivity|]. exfalso.
+    assert (Hex : exists r, In r (level_results g p Violation)).
+    { clear H. destruct (level_results g p Violation) as [|r rs]; [discriminate|]. exists r. simpl. now left. }
+    destruct Hex as [r Hin]. apply (H (r_name r) (r_focus r) (r_msg r)). apply (in_levels F). exists Violation. unfold F.
+    apply in_map_iff. exists r. auto.
+Qed.
